@@ -1347,6 +1347,11 @@ def gen_loss_def(rng, lid, ref, name, theta_true, x0, t0, tmax, box, pos, classe
             d["weights"] = [flat[i * len(w_[0]):(i + 1) * len(w_[0])] for i in range(len(w_))]
         else:
             d["weights"] = pat(len(w_))
+    if d.get("weights") is not None and isinstance(d["weights"], list) and isinstance(d["weights"][0], list) \
+            and len(d["weights"][0]) >= 2 and rng.random() < 0.3:
+        # single observations switched off: a zero weight in some but not all series of a time point
+        for _ in range(rng.randint(1, 3)):
+            d["weights"][rng.randrange(len(d["weights"]))][rng.randrange(len(d["weights"][0]))] = 0.0
     if allow_targets and p >= 2 and rng.random() < 0.4:
         d["target_param"] = rng.sample(ref.param_names, rng.randint(1, p - 1 if rng.random() < 0.7 else p))
     if allow_targets and rng.random() < 0.3:
